@@ -87,10 +87,10 @@ Init == /\ phase = "new" /\ cfg \in Configs
         /\ ys = <<>> /\ outs = <<>> /\ clamped = FALSE /\ cover = <<>>
 
 \* __init__.  The algorithm is then run for every configuration the PROPERTY admits, with the FFT
-\* size resolved by the constructor, or with the requested one where the constructor over-rejects.
+\* size resolved by the constructor (CtorComplete: the constructor accepts all of them).
 Construct ==
   /\ phase = "new"
-  /\ ctor' = ImplCtor(cfg.method, cfg.fft, SizeOf(cfg.bs) * cfg.K)
+  /\ ctor' = ImplCtor(cfg.method, cfg.fft, cfg.K)
   /\ F' = IF ctor'.v = "ok" THEN ctor'.F ELSE cfg.fft
   /\ phase' = IF Ref(cfg) = "ok" THEN "ready" ELSE "done"
   /\ UNCHANGED <<cfg, ib, ys, outs, clamped, cover>>
@@ -153,18 +153,16 @@ SteppedIsLoop ==
      \A p \in {1, NProbes(cfg)} :
         outs[p] = ApplyBatched("overlap_save", F, cfg.xs, cfg.bs, ProbeX(cfg, p), ProbeB(cfg, p))
 
-\* constructor: never accepts what the property rejects; rejects an admissible configuration only
-\* for batched band values with fft_size < 2 * band_values.size - 1 (total size used for K)
+\* constructor: never accepts what the property rejects (CtorSound); accepts every admissible
+\* configuration, i.e. every fft_size >= 2K-1 with K the LAST axis, also for batched band values
+\* (CtorComplete); hence the verdict is exactly the reference verdict
 CtorSound == (phase # "new" /\ ctor.v = "ok") => Ref(cfg) = "ok"
-CtorCompleteExceptBatched ==
-  (phase # "new" /\ Ref(cfg) = "ok" /\ ctor.v # "ok") =>
-     /\ SizeOf(cfg.bs) > 1 /\ ctor.why = "fft_size_small"
-     /\ cfg.fft >= 2 * cfg.K - 1 /\ cfg.fft < 2 * SizeOf(cfg.bs) * cfg.K - 1
-CtorUnbatchedExact == (phase # "new" /\ SizeOf(cfg.bs) = 1) => ctor.v = Ref(cfg)
+CtorComplete == (phase # "new" /\ Ref(cfg) = "ok") => ctor.v = "ok"
+CtorExact == phase # "new" => ctor.v = Ref(cfg)
 FftSizeAdmissible ==
   (phase \in {"ready", "loop"} /\ cfg.method = "overlap_save") =>
      /\ F >= 2 * cfg.K - 1 /\ P.step >= 1
-     /\ (cfg.fft = None => F = Pow2(1 + CeilLog2(2 * SizeOf(cfg.bs) * cfg.K - 1)))
+     /\ (cfg.fft = None => F = Pow2(1 + CeilLog2(2 * cfg.K - 1))) /\ (cfg.fft # None => F = cfg.fft)
 
 \* loop invariants of overlap_save
 LoopLenY ==
@@ -205,14 +203,11 @@ ScatterDropsOnlyOutside ==
   (phase = "done" /\ cfg.method = "dense") =>
      \A jk \in DenseDropped(cfg.n, ProbeB(cfg, NProbes(cfg))[1]) : jk[1] < 0 \/ jk[1] >= cfg.n
 
-\* dtype flow of the transcription: output dtype = input dtype except for overlap_save when the
-\* input dtype is not the default float dtype (float32 input in 64-bit mode: TypeError)
+\* dtype flow of the transcription: output dtype = input dtype for all four methods in all modes
+\* (band values and input of the same dtype)
 DtypeFlow ==
   \A md \in DtModes :
-     cfg.method \in Methods =>
-        \/ ImplOutDtype(cfg.method, md[1], md[1], md[2]) = RefOutDtype(md[1])
-        \/ (cfg.method = "overlap_save" /\ md[1] # DefaultFloat(md[2])
-            /\ ImplOutDtype(cfg.method, md[1], md[1], md[2]) = "TypeError")
+     cfg.method \in Methods => ImplOutDtype(cfg.method, md[1], md[1], md[2]) = RefOutDtype(md[1])
 
 InQuantifier == InDomain
 
